@@ -55,6 +55,7 @@ def parseOp (s : String) : Option Op :=
   | ["M", n, m] => match hexDecode n, parseMeta m with
     | some n, some m => some (.wmeta n m)
     | _, _ => none
+  | ["N", n] => (hexDecode n).map Op.wmetaBad
   | ["E", n, ins] => match hexDecode n, parseInsList ins with
     | some n, some ins => some (.wenv n ins)
     | _, _ => none
